@@ -7,6 +7,7 @@ on free cells.
 import JumanjiModel.Env.Maze.Lemmas
 import JumanjiModel.Env.Maze.MazeGenLemmas
 import JumanjiModel.Env.Maze.FloodLemmas
+import JumanjiModel.Env.Maze.BoundsLemmas
 open Jm Maze
 
 /-- a 2×3 maze (non-square) with one wall, agent at (0,0), target at (1,2) -/
@@ -145,3 +146,30 @@ example : isRecursiveDivisionMaze
      [false, true, false, true, false],
      [false, false, false, false, false]] 3 5 = true := by decide
 end Props.C10
+
+namespace Props.C01
+/-- the reset observation (generator output `g` with the mask recomputed, `restart`) has every leaf inside the
+interval `obsBounds cfg` lists for it: positions inside the grid, walls / mask 0..1, `step_count = 0 ≤ time_limit`.
+Hypotheses: the generator puts agent and target on cells of the grid and starts the counter at 0. -/
+theorem maze_reset_obs_in_bounds (cfg : Cfg) (g : State) (ha : inGrid cfg g.agent) (ht : inGrid cfg g.target)
+    (h0 : g.stepCount = 0) (htl : 0 ≤ cfg.timeLimit) : ObsInBounds cfg (Maze.reset cfg g).2.obs :=
+  Maze.reset_obs_in_bounds cfg g ha ht h0 htl
+
+/-- every step taken from a consistent state of a running episode (`0 ≤ step_count < time_limit`) with any
+in-spec action emits an observation inside `obsBounds cfg` — including the terminal step, where
+`step_count = time_limit` -/
+theorem maze_step_obs_in_bounds (cfg : Cfg) (s : State) (hc : Consistent cfg s) (h0 : 0 ≤ s.stepCount)
+    (h1 : s.stepCount < cfg.timeLimit) (a : Nat) (ha : a < 4) :
+    ObsInBounds cfg (step cfg s (a : Int)).2.obs := Maze.step_obs_in_bounds cfg s hc h0 h1 a ha
+
+/-- the reset state is consistent, so the step theorem applies along every episode (with `maze_step_consistent`) -/
+theorem maze_reset_consistent (cfg : Cfg) (g : State)
+    (hs : Jx.Grid.shaped g.walls cfg.numRows cfg.numCols = true) (ha : free cfg g.walls g.agent)
+    (ht : free cfg g.walls g.target) : Consistent cfg (Maze.reset cfg g).1 :=
+  Maze.reset_consistent cfg g hs ha ht
+
+example : Consistent Props.mazeCfg Props.mazeEx ∧ 0 ≤ Props.mazeEx.stepCount ∧
+    Props.mazeEx.stepCount < Props.mazeCfg.timeLimit := by decide
+/-- the bound on `step_count` is attained: the terminal step of a 1-step episode shows `time_limit` -/
+example : (step { Props.mazeCfg with timeLimit := 1 } Props.mazeEx 2).2.obs.stepCount = 1 := by decide
+end Props.C01
